@@ -249,6 +249,48 @@ func drainCross(n int, c bool, m int) {
 	}
 }
 
+func seqN(n int) func(func(int) bool) {
+	return func(yield func(int) bool) {
+		for i := 0; i < n; i++ {
+			if !yield(i) {
+				return
+			}
+		}
+	}
+}
+
+// defers inside range-over-func bodies belong to the enclosing function
+func rangeFuncDefers(n int) {
+	defer println("plain first")
+	for i := range seqN(n) {
+		defer println("rf1", i)
+	}
+	for i := range seqN(2) {
+		defer println("rf2", i)
+	}
+	defer println("plain last")
+}
+
+func rangeFuncNested() {
+	for i := range seqN(2) {
+		for j := range seqN(2) {
+			defer println("nest", i, j)
+		}
+	}
+	defer argless2()
+}
+
+func argless2() { println("argless2") }
+
+func rangeFuncPanic() {
+	for i := range seqN(3) {
+		defer println("rfp", i)
+		if i == 1 {
+			panic("in body")
+		}
+	}
+}
+
 func runtimeFault() (ok bool) {
 	defer func() { ok = recover() != nil }()
 	var m map[string]int
@@ -289,7 +331,33 @@ func main() {
 	wrap("alwaysReached", func() { alwaysUnreached(false) })
 	wrap("drainCross", func() { drainCross(2, true, 0) })
 	wrap("drainCrossSep", func() { drainCross(2, false, 2) })
+	wrap("rangeFuncDefers", func() { rangeFuncDefers(3) })
+	wrap("rangeFuncDefers0", func() { rangeFuncDefers(0) })
+	wrap("rangeFuncNested", rangeFuncNested)
+	wrap("rangeFuncPanic", rangeFuncPanic)
 	wrap("runtimeFault", func() { println("runtimeFault", runtimeFault()) })
 	wrap("goexit", goexitProbe)
+}
+'''
+
+
+# an unrecovered panic raised by a deferred call while runtime.Goexit is unwinding must crash the program (exit status 2)
+GOEXIT_PANIC = r'''package main
+
+import (
+	"runtime"
+	_ "sync"
+	_ "sync/atomic"
+)
+
+func main() {
+	never := make(chan int)
+	go func() {
+		defer func() { println("last deferred call runs") }()
+		defer func() { panic("boom while exiting") }()
+		runtime.Goexit()
+	}()
+	<-never // the crash of the goroutine above must end the process (exit status 2)
+	println("PROGRAM SURVIVED an unrecovered panic")
 }
 '''
